@@ -6,9 +6,13 @@ import (
 	"bytes"
 	"fmt"
 	"io/ioutil"
+	"os"
+	"path/filepath"
 	"runtime"
 	"sync"
 	"sync/atomic"
+	"syscall"
+	"time"
 
 	"github.com/google/safehtml/template"
 )
@@ -21,6 +25,11 @@ func runC07(c *caseWriter) (string, bool, map[string]int) {
 	genHistories(c, quick)
 	for k := 0; k < 3*len(c07RaceSets); k++ {
 		emit(c, "clone_race", fmt.Sprint(k))
+	}
+	for _, api := range []string{"files", "glob", "fs"} {
+		for _, first := range []string{"X", "Y"} {
+			emit(c, "parse_overlap", api, first)
+		}
 	}
 	return "clone_race: on 5 sets (one of 26 long members) x 3 x 240 fresh copies, Clone of the root races (spinning barrier, 0-3 yields on either side) with the first ExecuteTemplate of a member of the parent; a clone that is returned must execute every member exactly as a fresh set does. API histories over a pool of 61 definition texts (helpers shared between callers in different contexts, context-opening helpers, failing/recursive/undefined/empty callees, break/continue, predefined escapers): every pool set with every order and repetition of executing two of its members, clone / late-parse scenarios, and random histories of 4-12 ops (New, t.New, Parse, Clone, Lookup, Execute, ExecuteTemplate, Templates/DefinedTemplates/Name, CSPCompatible) weighted towards doing something after an execution; every exec op is also run on a fresh set with the same definitions and on the projection of the history to its own name space; non-trivial = the history executes a template", false, nil
 }
@@ -145,4 +154,106 @@ func init() {
 		}
 		c.Case("clone_race", in[0], fmt.Sprint(rounds), fmt.Sprint(cloned), fmt.Sprint(bad), hx(detail))
 	})
+}
+
+// ---------------------------------------------------------------- a file parse that overlaps the first execution
+//
+// parse_overlap <api> <first>: ParseFiles / ParseGlob / ParseFS on an executed set must fail.  Here the call
+// STARTS before the set's first execution and reads its file after it: the file is a FIFO, so the read
+// blocks until the harness (which executes the set in between) writes the text.  Deterministic: the
+// harness opens the FIFO for writing, which returns only once the parsing goroutine has opened it for
+// reading.  Whatever the call answers, the set must afterwards execute X as it did before.
+func init() {
+	reg("parse_overlap", 2, func(c *caseWriter, in []string) {
+		api, first := in[0], in[1]
+		dir, err := ioutil.TempDir("", "verif-c07-")
+		if err != nil {
+			c.Case("parse_overlap", in[0], in[1], "setup", hx(err.Error()), "", "")
+			return
+		}
+		defer os.RemoveAll(dir)
+		fifo := filepath.Join(dir, "late.tmpl")
+		if err := syscall.Mkfifo(fifo, 0600); err != nil {
+			c.Case("parse_overlap", in[0], in[1], "setup", hx(err.Error()), "", "")
+			return
+		}
+		root := template.New("root")
+		template.VerifParse(root, `{{define "X"}}<b>{{.}}</b>{{end}}{{define "Y"}}<i>{{template "X" .}}</i>{{end}}root`)
+		type res struct {
+			t   *template.Template
+			err error
+		}
+		done := make(chan res, 1)
+		os.Setenv("VERIF_C07_LATE", fifo)
+		os.Setenv("VERIF_C07_DIR", dir)
+		go func() {
+			defer func() {
+				if p := recover(); p != nil {
+					done <- res{nil, fmt.Errorf("panic: %v", p)}
+				}
+			}()
+			var t *template.Template
+			var err error
+			switch api {
+			case "files":
+				t, err = root.ParseFilesFromTrustedSources(template.TrustedSourceFromEnvVar("VERIF_C07_LATE"))
+			case "glob":
+				t, err = root.ParseGlobFromTrustedSource(template.TrustedSourceJoin(template.TrustedSourceFromEnvVar("VERIF_C07_DIR"), template.TrustedSourceFromConstant("*.tmpl")))
+			default:
+				t, err = root.ParseFS(template.TrustedFSFromTrustedSource(template.TrustedSourceFromEnvVar("VERIF_C07_DIR")), "late.tmpl")
+			}
+			done <- res{t, err}
+		}()
+		// returns once the parsing goroutine has opened the FIFO for reading (or gives up: the call failed early)
+		var w *os.File
+		opened := make(chan *os.File, 1)
+		go func() {
+			f, _ := os.OpenFile(fifo, os.O_WRONLY, 0)
+			opened <- f
+		}()
+		early := false
+		var r res
+		select {
+		case w = <-opened:
+		case r = <-done:
+			early = true
+		case <-time.After(5 * time.Second):
+			early = true
+			r = res{nil, fmt.Errorf("timeout")}
+		}
+		var b0 bytes.Buffer
+		e0 := root.ExecuteTemplate(&b0, first, "<v>")
+		before := classifyErr(e0) + "|" + b0.String()
+		if w != nil {
+			w.WriteString(`{{define "X"}}<script>alert(1)</script>{{.}}{{end}}late`)
+			w.Close()
+		} else {
+			// unblock the opener goroutine
+			if f, err := os.OpenFile(fifo, os.O_RDONLY|syscall.O_NONBLOCK, 0); err == nil {
+				f.Close()
+			}
+		}
+		if !early {
+			select {
+			case r = <-done:
+			case <-time.After(5 * time.Second):
+				r = res{nil, fmt.Errorf("timeout")}
+			}
+		}
+		parse := "refused"
+		if r.err == nil {
+			parse = "accepted"
+		}
+		var b1 bytes.Buffer
+		e1 := root.ExecuteTemplate(&b1, "X", "<v>")
+		var b2 bytes.Buffer
+		e2 := c07Fresh().ExecuteTemplate(&b2, "X", "<v>")
+		c.Case("parse_overlap", in[0], in[1], parse, hx(before), hx(classifyErr(e1)+"|"+b1.String()), hx(classifyErr(e2)+"|"+b2.String()))
+	})
+}
+
+func c07Fresh() *template.Template {
+	root := template.New("root")
+	template.VerifParse(root, `{{define "X"}}<b>{{.}}</b>{{end}}{{define "Y"}}<i>{{template "X" .}}</i>{{end}}root`)
+	return root
 }
